@@ -1,4 +1,4 @@
-import Kolibrie.Lemmas.Engine
+import Kolibrie.Lemmas.Implement
 /-!
 # C01 — SELECT answers equal the SPARQL algebra over the stored dataset
 
@@ -17,10 +17,19 @@ Proved here (all rows / plans / databases):
 * ORDER BY is a permutation, DISTINCT/LIMIT/projection facts of `finalize_select` (`order_is_permutation`,
   `limit_is_prefix`, `distinct_no_duplicates`).
 
+* the whole SELECT pipeline is independent of the plan the optimizer picks (`select_plan_independent_partial`):
+  for queries whose lowered WHERE clause is safe (`safeL`, decidable) and that use no aggregate / DISTINCT /
+  ORDER BY / LIMIT, every assignment of join algorithms yields the same multiset of result rows, namely that of
+  the nested-loop reference plan.
+
 /- FULL (checked by the correspondence run against the algebra; not yet proved):
    theorem select_correct : wellScoped [] q.where_ = true →
        ∀ algs, (runSelect db q algs) ~ specSelect db q
-   Missing: `optimizer_sound` of C02 (input independence of scans/joins over canonical rows). -/
+   Proved: plan independence (above, via C02's `optimizer_choice_irrelevant`), filter/bind/modifier agreement
+   lemmas (this file).  Missing: the induction relating the reference plan `implNl (lower .dflt p)` to `sem p`
+   (graph scope carried on scans vs the active graph of the algebra), BIND, sub-selects with joins, and the
+   modifiers on permuted inputs (ORDER BY ties, LIMIT cuts and DISTINCT representatives are legal choices, so the
+   statement there is "a legal answer", which the harness checks directly). -/
 -/
 namespace Kolibrie.Props.C01
 open Kolibrie.Engine List
@@ -163,6 +172,30 @@ theorem distinct_no_duplicates (spec : Spec) (rows : List Row) (h : spec.distinc
   unfold finalizeSub
   simp only [h, hl, if_true]
   exact nodup_eraseDups _
+
+/-- without modifiers the answer table is a row-wise image of the solutions: permuted solutions give a
+    permuted table -/
+theorem finalize_plain_perm (q : Select) (hp : hasAgg (q.spec.proj.getD []) = false)
+    (hd : q.spec.distinct = false) (ho : q.spec.order = []) (hl : q.spec.limit = none)
+    {a b : List Row} (h : a ~ b) : finalizeSelect q a ~ finalizeSelect q b := by
+  unfold finalizeSelect
+  simp only [hp, hd, ho, hl, Bool.false_eq_true, if_false, isEmpty_nil, if_true]
+  exact h.map _
+
+/-- **SELECT answers do not depend on the plan** (partial: plain projection queries over safe WHERE clauses) -/
+theorem select_plan_independent_partial (db : DB) (q : Select)
+    (hs : safeL (lower .dflt q.where_) = true)
+    (hp : hasAgg (q.spec.proj.getD []) = false)
+    (hd : q.spec.distinct = false) (ho : q.spec.order = []) (hl : q.spec.limit = none)
+    (a b : List JoinAlg) : runSelect db q a ~ runSelect db q b := by
+  unfold runSelect
+  apply finalize_plain_perm q hp hd ho hl
+  have hc : (⟨datasetView db q, none⟩ : Ctx).WF := by
+    unfold datasetView
+    split
+    · exact nodup_eraseDups _
+    · exact nodup_eraseDups _
+  exact implement_any_two db _ hs a b _ hc
 
 /-! non-vacuity -/
 example : boundIn [(0, "5"), (1, "x")] (Cond.and (.cmp 0 ">" (.const "3")) (.not (.cmp 1 "=" (.var 0)))).vars := by
